@@ -1,0 +1,41 @@
+package kongutil
+
+import (
+	"fmt"
+	"os"
+	"reflect"
+
+	"github.com/alecthomas/kong"
+)
+
+// ExistingDirMapper is a replacement for kong's built-in "existingdir" type.
+// Built-in one silently leaves value empty when it comes from resolver (configuration file)
+// instead of command line or environment, so such directory is neither checked nor used.
+var ExistingDirMapper = kong.NamedMapper("directory", kong.MapperFunc(existingDirMapper))
+
+func existingDirMapper(dctx *kong.DecodeContext, target reflect.Value) error {
+	if target.Kind() != reflect.String {
+		return fmt.Errorf("\"directory\" can only be used with string")
+	}
+
+	var path string
+	err := dctx.Scan.PopValueInto("dir", &path)
+	if err != nil {
+		return err
+	}
+
+	path = kong.ExpandPath(path)
+
+	stat, err := os.Stat(path)
+	if err != nil {
+		return err
+	}
+
+	if !stat.IsDir() {
+		return fmt.Errorf("%q exists but is not a directory", path)
+	}
+
+	target.SetString(path)
+
+	return nil
+}
